@@ -48,6 +48,8 @@ Witness  == \A r \in reports : \E a, b \in Ix : /\ a < b
                                                 /\ \A x \in 1..(a - 1) : hist[x].i # r.i      \* a is the first observation of r.i
 Minimal  == \A i \in Inputs : (\A a, b \in Ix : hist[a].i = i /\ hist[b].i = i => hist[a].o = hist[b].o)
                               => \A r \in reports : r.i # i
+(* probe (expected to be violated): shows that rejections are reachable, i.e. Complete is not vacuous *)
+NeverRejects == reports = {}
 SeenIsFirst == \A i \in DOMAIN seen : \E a \in Ix : /\ hist[a].i = i /\ hist[a].o = seen[i] /\ hist[a].c = who[i]
                                                     /\ \A x \in 1..(a - 1) : hist[x].i # i
 =============================================================================
